@@ -91,7 +91,12 @@ def seeded(prop):
         out.append(dict(id="S" + os.path.basename(d), props=[prop], tier="quick", patch=os.path.join(d, "patch.diff"), expect=exp,
                         what="seeded: " + meta.get("summary", "")[:100]))
     # behaviour-preserving refactorings by sub-agents (/verif/benign/<prop>r<k>/): controls that must stay silent
-    for d in sorted(glob.glob(os.path.join(VERIF, "benign", prop + "*"))):
+    cands = sorted(glob.glob(os.path.join(VERIF, "benign", prop + "*")))
+    for d in sorted(glob.glob(os.path.join(VERIF, "benign", "L*"))):
+        mf = os.path.join(d, "meta.json")
+        if os.path.exists(mf) and prop in json.load(open(mf)).get("props", []):
+            cands.append(d)
+    for d in cands:
         mf = os.path.join(d, "meta.json")
         if not os.path.exists(mf) or not os.path.exists(os.path.join(d, "patch.diff")):
             continue
